@@ -87,7 +87,7 @@ TAlloc ==
      IN IF Explaining
           THEN /\ api' = [api EXCEPT ![Ev.pod].exists = TRUE]
                /\ resv' = IF Ev.result.ok /\ Ev.commit THEN [resv EXCEPT ![Ev.pod] = EntriesOf(Ev.result.alloc)] ELSE resv
-               /\ UNCHANGED total /\ KeepExempt
+               /\ UNCHANGED <<total, lost>> /\ KeepExempt
                /\ Expect(TRUE, [allocator |-> AllocExpect(reqs, required), obs |-> Expected'])
           ELSE Alloc(Ev.pod, reqs, required, Ev.result.ok, Ev.result.alloc, Ev.commit) /\ ObsOK
 
@@ -116,4 +116,56 @@ TraceNext == \/ TInventory \/ TInvalidate \/ TCreate \/ TAlloc \/ TUnreserve \/ 
              \/ TReDelete \/ TAnnotate \/ TTerminate \/ TUnassign \/ TDelete \/ TAdd \/ TRestart \/ TLateUnreserve
              \/ (SegDone /\ UNCHANGED vars)
 TraceSpec == TraceInit /\ [][TraceNext]_<<vars, tvars>>
+
+(********************* plugin-level cycles on several nodes ******************)
+(* Harness zz_verif_c07b_test.go (TestVerifC07Plugin) drives the REAL Plugin:   *)
+(* PreFilter, PreFilterExtensions.RemovePod / AddPod (what-if on a copy of the  *)
+(* cycle state), Filter on two nodes, Reserve on the chosen node, Unreserve or  *)
+(* PreBind + the bind delivery, with informer events anywhere in between.  One  *)
+(* history is logged once per node: the reset event of a segment names the node *)
+(* whose ledgers its obs are (view); every event echoes the whole operation     *)
+(* incl. the node it concerns (absent: no particular node).  For the node of    *)
+(* the view:                                                                   *)
+(*   begin / whatifRemove / whatifAdd / filter / end  change NOTHING (TCycleRead)*)
+(*   reserve on this node: (A)/(K) against the state at THIS moment, then the    *)
+(*            commit; (U) by CONSTRAINT InvU                          (TReserve) *)
+(*   every step that concerns another node changes nothing here    (TElsewhere) *)
+(*   everything else as in TraceNext.  ObsOK after EVERY event.                 *)
+View  == Trace[seg].view
+Mine  == IF l > TLen THEN FALSE ELSE (IF "node" \in DOMAIN Trace[l] THEN Trace[l].node = View ELSE TRUE)
+Other == IF l > TLen THEN FALSE ELSE (IF "node" \in DOMAIN Trace[l] THEN Trace[l].node # View ELSE FALSE)
+
+CycleReadOps == {"begin", "whatifRemove", "whatifAdd", "filter", "end"}
+TCycleRead == /\ ~done /\ l <= TLen /\ Ev.op \in CycleReadOps
+              /\ l' = l + 1 /\ UNCHANGED <<seg, done>>
+              /\ CycleRead /\ ObsOK
+
+TReserve ==
+  /\ IsEvent("reserve") /\ Ev.pod \in Pods
+  /\ AllocInUniverse(Ev.result.alloc)
+  /\ LET reqs == Ev.reqs
+         required == SetsOf(Ev.required)
+     IN IF Explaining
+          THEN /\ api' = [api EXCEPT ![Ev.pod].exists = TRUE]
+               /\ resv' = IF Ev.result.ok THEN [resv EXCEPT ![Ev.pod] = EntriesOf(Ev.result.alloc)] ELSE resv
+               /\ UNCHANGED <<total, lost>> /\ KeepExempt
+               /\ Expect(TRUE, [allocator |-> AllocExpect(reqs, required), obs |-> Expected'])
+          ELSE Reserve(Ev.pod, reqs, required, Ev.result.ok, Ev.result.alloc) /\ ObsOK
+
+ElsewhereOps == {"inventory", "invalidate", "add", "annotate", "terminate", "unassign", "delete", "redelete",
+                 "touch", "readd", "reserve", "unreserve", "bind"}
+TElsewhere == /\ ~done /\ l <= TLen /\ Ev.op \in ElsewhereOps
+              /\ l' = l + 1 /\ UNCHANGED <<seg, done>>
+              /\ IF "pod" \in DOMAIN Ev
+                   THEN Ev.pod \in Pods /\ Elsewhere(Ev.pod, IF Ev.op \in {"delete", "redelete"} THEN "gone"
+                                                               ELSE IF Ev.op \in {"reserve", "unreserve"} THEN "same" ELSE "exists")
+                   ELSE UNCHANGED vars
+              /\ ObsOK
+
+CycleNext == \/ TCycleRead
+             \/ (Mine /\ (\/ TInventory \/ TInvalidate \/ TCreate \/ TUnreserve \/ TBind \/ TTouch \/ TReAdd \/ TReDelete
+                          \/ TAnnotate \/ TTerminate \/ TUnassign \/ TDelete \/ TAdd \/ TReserve))
+             \/ (Other /\ TElsewhere)
+             \/ (SegDone /\ UNCHANGED vars)
+CycleSpec == TraceInit /\ [][CycleNext]_<<vars, tvars>>
 =============================================================================
